@@ -260,6 +260,25 @@ Theorem C18_known_finding_KF2 :
 Proof. exact block_indent_diverges. Qed.
 Print Assumptions C18_known_finding_KF2.
 
+(** The same for a START delimiter that begins with a blank (" <" against "[["): the pending tag that
+    stands first on a line of the unwrapped body loses the blank of its delimiter and is no tag any
+    more, while under "[[" it is kept (with its indentation). *)
+Definition kf2s_cfg : config := mkConfig [116;108]%N [43;48;48;58;48;48]%N 1300000000%Z [114;109]%N [].
+Definition kf2s_srcA : str := [97; 10; 32; 60; 116; 108; 32; 116; 111; 61; 34; 50; 48; 48; 48; 45; 48; 49; 45; 48; 49; 32; 48; 48; 58; 48; 48; 58; 48; 48; 34; 32; 117; 110; 119; 114; 97; 112; 45; 98; 108; 111; 99; 107; 62; 10; 123; 10; 32; 32; 32; 32; 120; 10; 32; 32; 32; 60; 116; 108; 32; 116; 111; 61; 34; 50; 49; 48; 48; 45; 48; 49; 45; 48; 49; 32; 48; 48; 58; 48; 48; 58; 48; 48; 34; 62; 10; 32; 32; 32; 32; 121; 10; 32; 32; 32; 60; 47; 116; 108; 62; 10; 125; 10; 32; 60; 47; 116; 108; 62; 10; 98; 10]%N.
+Definition kf2s_srcB : str := [97; 10; 91; 91; 116; 108; 32; 116; 111; 61; 34; 50; 48; 48; 48; 45; 48; 49; 45; 48; 49; 32; 48; 48; 58; 48; 48; 58; 48; 48; 34; 32; 117; 110; 119; 114; 97; 112; 45; 98; 108; 111; 99; 107; 93; 93; 10; 123; 10; 32; 32; 32; 32; 120; 10; 32; 32; 91; 91; 116; 108; 32; 116; 111; 61; 34; 50; 49; 48; 48; 45; 48; 49; 45; 48; 49; 32; 48; 48; 58; 48; 48; 58; 48; 48; 34; 93; 93; 10; 32; 32; 32; 32; 121; 10; 32; 32; 91; 91; 47; 116; 108; 93; 93; 10; 125; 10; 91; 91; 47; 116; 108; 93; 93; 10; 98; 10]%N.
+Definition kf2s_outA : str := [97; 10; 120; 10; 60; 116; 108; 32; 116; 111; 61; 34; 50; 49; 48; 48; 45; 48; 49; 45; 48; 49; 32; 48; 48; 58; 48; 48; 58; 48; 48; 34; 62; 10; 121; 10; 60; 47; 116; 108; 62; 10; 98; 10]%N.
+Definition kf2s_outB : str := [97; 10; 120; 10; 91; 91; 116; 108; 32; 116; 111; 61; 34; 50; 49; 48; 48; 45; 48; 49; 45; 48; 49; 32; 48; 48; 58; 48; 48; 58; 48; 48; 34; 93; 93; 10; 121; 10; 91; 91; 47; 116; 108; 93; 93; 10; 98; 10]%N.
+Theorem C18_known_finding_KF2_start_delimiter :
+  clean kf2s_cfg [32;60]%N [62]%N kf2s_srcA = Ok kf2s_outA /\
+  clean kf2s_cfg [91;91]%N [93;93]%N kf2s_srcB = Ok kf2s_outB /\
+  (exists ts, tokenize kf2s_outA [32;60]%N [62]%N = Ok ts /\ forallb (fun t => negb (tk_elem t)) ts = true) /\
+  (exists ts, tokenize kf2s_outB [91;91]%N [93;93]%N = Ok ts /\ existsb tk_elem ts = true).
+Proof.
+  split; [vm_compute; reflexivity|]. split; [vm_compute; reflexivity|].
+  split; eexists; split; vm_compute; reflexivity.
+Qed.
+Print Assumptions C18_known_finding_KF2_start_delimiter.
+
 (** The premise [bodies_ok] (the first character of each tag body lies inside the body; implied by
     well-formed UTF-8) is needed: *)
 Example C18_bodies_ok_needed :
